@@ -9,7 +9,7 @@ PK = {"lvl2": 1312, "lvl3": 1952, "lvl5": 2592, "ml_dsa_44": 1312, "ml_dsa_65": 
 SK = {"lvl2": 2528, "lvl3": 4000, "lvl5": 4864, "ml_dsa_44": 2560, "ml_dsa_65": 4032, "ml_dsa_87": 4896}
 RULE = ("seeded key generation for the KAT seeds (OpenSSL 3.5.5 ML-DSA vectors, the repo's Dilithium vectors), all-00, all-FF and "
         "random seeds x 6 sets, through sign::<set>::keypair and <set>::Keypair::generate; unseeded generation with the RNG "
-        "tap serving scripted bytes. distinct_nontrivial = distinct (set, seed) pairs with an ok answer. Twin requests: key generation into buffers 1/33/64 bytes longer must write the same keys; output buffers pre-filled with a byte that changes per call.")
+        "tap serving scripted bytes. distinct_nontrivial = distinct (set, seed) pairs with an ok answer. Twin requests: key generation into buffers 1/33/64 bytes longer must write the same keys; output buffers pre-filled with a byte that changes per call. Corpus kat/eta_tight_seeds.json: key seeds with tight secret-sampler streams and with consecutive out-of-range candidates in ExpandA.")
 EXPLANATION = ('Props/C04.lean: keypair_is_spec_function - the keys keypair returns satisfy KeygenSpec.IsKeyGen (FIPS 204 Alg. 6 / Dilithium 3.1 Gen as a relation over specification-level objects) and that relation determines pk and sk; keygen_relation (t1 2^13 + t0 = A s1 + s2, ranges, no overflow). The tie: model = code byte for byte on KAT, edge, boundary-searched and random seeds; model = OpenSSL 3.5.5 / NIST vectors.')
 ASSUMPTIONS = ["kat/mldsa_keygen_openssl.json was produced once by OpenSSL 3.5.5 (node 22) — provenance in the file",
                "kat/dilithium_repo_kats.json are the NIST round-3.1 vectors embedded in the repo's tests"]
@@ -54,9 +54,11 @@ def requests(tier, rng):
     for s in SETS:
         for xi in tight.get(s, [])[: (3 if tier == "quick" else 8)]:
             L.append("sign::%s::keypair %s -" % (s, xi))
+            _band.add(xi)       # the public key of corpus seeds is also computed independently (numpy / hashlib)
         # ... and seeds for which an entry of A meets two or more out-of-range candidates in a row
         for xi in corpus.get("keygen_rej_runs", {}).get(s, [])[: (3 if tier == "quick" else 6)]:
             L.append("sign::%s::keypair %s -" % (s, xi))
+            _band.add(xi)
     for s in SETS:
         seeds = ["00" * 32, "ff" * 32] + [bytes(rng.randrange(256) for _ in range(32)).hex() for _ in range(n_rand)]
         for seed in seeds:
@@ -108,7 +110,7 @@ def violated(line, checked, release):
                 _oracle[key] = S.keygen_pk_oracle(p[1], bytes.fromhex(t[1]))
             want = _oracle[key]
             if want is not None and not (ans.startswith("ok ") and ans.split()[1] == want.hex()):
-                return "%s build: %s with seed %s (a coefficient of t = A*s1+s2 next to 0 or q) does not return the specification's public key" % (prof, t[0], t[1])
+                return "%s build: %s with seed %s (a boundary-seeking seed: a coefficient of t next to 0 or q, a tight sampler stream, consecutive rejections in ExpandA) does not return the specification's public key" % (prof, t[0], t[1])
         if ans.startswith("ok ") and p[0] == "sign" and p[2] == "keypair":
             pk, sk = ans.split()[1:]
             if len(pk) // 2 != PK[p[1]] or len(sk) // 2 != SK[p[1]]:
